@@ -1225,15 +1225,25 @@ func r4C08(c *Ctx) {
 			}
 			return false
 		}
-		// "the template did not change" is a reason only when no rollout-id is in use: with one, the id
-		// alone says whether this is a new release
+		// "the template did not change" is a reason only when no rollout-id is in use (with one, the id
+		// alone says whether this is a new release): the comparison of the templates is consulted —
+		// here or in a predicate helper of the package — only where the new rollout-id is known empty
 		noID := FCmp("==", idLookup, MConst(""))
 		sameTemplate := FTrue(MCall("util.EqualIgnoreHash"))
-		reach, at := CanReach(Entry(fn), noChange, ReachOpts{CutEdge: func(b *ssa.BasicBlock, k int) bool {
-			if EdgeFactMatches(b, k, allowed) {
-				return true
+		unguarded := ""
+		for _, g := range samePkgClosure(p, fn) {
+			for _, ci := range CallsIn(g, "util.EqualIgnoreHash") {
+				if !HasFact(FactsAtInstr(ci.(ssa.Instruction)), noID) {
+					unguarded = p.Pos(ci.Pos())
+				}
 			}
-			return EdgeFactMatches(b, k, sameTemplate) && HasFact(FactsFor(fn).At(b), noID)
+		}
+		withTemplate := FOr(allowed, sameTemplate)
+		reach, at := CanReach(Entry(fn), noChange, ReachOpts{CutEdge: func(b *ssa.BasicBlock, k int) bool {
+			if unguarded != "" {
+				return EdgeFactMatches(b, k, allowed)
+			}
+			return EdgeFactMatches(b, k, withTemplate)
 		}})
 		detail := ""
 		if reach {
